@@ -447,8 +447,8 @@ func c19() *core.Check {
 	schemes := []string{"javascript:", "vbscript:", "data:", "view-source:"}
 	return &core.Check{
 		ID: "C19",
-		Rule: "(recall) for every scheme in {javascript:, vbscript:, data:, view-source:}: per-byte encodings in {literal, &#D;, &#D, &#0000D;, &#xH;, &#XH, &#x00H;} exhaustively for data: and the java prefix (8^5, 8^4) and sampled for the longer schemes, x leading junk (bytes <= 0x20, >= 0x7f, entity-encoded white space) x NUL/LF between scheme letters x case masks; oracle: the URL predicate is true, and IsXSS(<a ATTR=quote(value)>) is true for every live URL attribute (also upper-/mixed-case and with NUL runs of 1-97 bytes inside the name) x 4 quotings. " +
-			"(decoder) every string over {& # x X ; 0 1 9 a f F g NUL 0xff} up to length 6 (thorough 7) plus boundary values around 0x1000FF in decimal and hex with 0-8 leading zeros and every tail: (value, consumed) must equal the decoder specification, 1 <= consumed <= |s|. Non-trivial = decoder inputs starting with '&#' and all recall cases; distinct by input.",
+		Rule: "(recall) for every scheme in {javascript:, vbscript:, data:, view-source:}: per-byte encodings in {literal, &#D;, &#D, &#0000D;, &#xH;, &#XH, &#x00H;} exhaustively for data: and the java prefix (8^5, 8^4) and sampled for the longer schemes, x leading junk (bytes <= 0x20, >= 0x7f, entity-encoded white space) x NUL/LF between scheme letters (also runs of 1-200 ignorable characters at every position, and leading junk runs up to 1000) x case masks; oracle: the URL predicate is true, and IsXSS(<a ATTR=quote(value)>) is true for every live URL attribute (also upper-/mixed-case and with NUL runs of 1-97 bytes inside the name) x 4 quotings. " +
+			"(decoder) every string over {& # x X ; 0 1 9 a f F g NUL 0xff} up to length 6 (thorough 7) plus boundary values around 0x1000FF in decimal and hex with 0-8 leading zeros and every tail, and all 256 byte values in every position of a reference: (value, consumed) must equal the decoder specification, 1 <= consumed <= |s|. Non-trivial = decoder inputs starting with '&#' and all recall cases; distinct by input.",
 		Plan: func(tier string, seed uint64) []core.Unit {
 			L := 6
 			rnd := uint64(300000)
@@ -461,6 +461,8 @@ func c19() *core.Check {
 				us = append(us, gen.RangeUnits("dec", gen.Pow(len(c19DecAlpha), l), 50000, strconv.Itoa(l))...)
 			}
 			us = append(us, core.Unit{Gen: "boundary", Lo: 0, Hi: 1})
+			us = append(us, gen.RangeUnits("decbytes", 256, 16, "")...)
+			us = append(us, core.Unit{Gen: "enc-run", Lo: 0, Hi: 1})
 			us = append(us, gen.RangeUnits("enc-data", gen.Pow(8, 5), 4096, "")...)
 			us = append(us, gen.RangeUnits("enc-java", gen.Pow(8, 4), 4096, "")...)
 			us = append(us, gen.RangeUnits("enc-rand", rnd, 20000, "")...)
@@ -488,6 +490,31 @@ func c19() *core.Check {
 				}
 				for _, s := range []string{"&#99999999999999999999999999;", "&#xfffffffffffffffffffffffff;", "&#" + strings.Repeat("9", 400), "&#x" + strings.Repeat("f", 400), "&#" + strings.Repeat("0", 5000) + "65;"} {
 					emit(core.Case{In: s, Kind: "dec"})
+				}
+			case "decbytes":
+				// every byte value in every position of a reference
+				for i := u.Lo; i < u.Hi; i++ {
+					b := string([]byte{byte(i)})
+					for _, t := range []string{"&#x" + b, "&#x6a" + b + "z", "&#x" + b + "6a;", "&#" + b, "&#1" + b, "&#10" + b + ";", "&" + b, "&" + b + "#", "&#X" + b + b, "&#x1" + b + "1;", "&#0" + b + "9", b + "&#1;", "&#x" + b + ";", "&#" + b + ";", "&#xf" + b, "&#9" + b} {
+						emit(core.Case{In: t, Kind: "dec"})
+					}
+				}
+			case "enc-run":
+				// runs of ignorable characters inside the scheme and long leading junk
+				runs := []string{"\x00", "\n", "&#0;", "&#10;", "&#x0A;", "&#x00;", "\x00\n", "&#010;"}
+				for _, sc := range schemes {
+					for p := 1; p < len(sc); p++ {
+						for _, rn := range runs {
+							for _, k := range []int{1, 2, 8, 28, 29, 33, 64, 200} {
+								emit(core.Case{In: sc[:p] + strings.Repeat(rn, k) + sc[p:] + "x", Kind: "url", A: int64(p*7 + k)})
+							}
+						}
+					}
+					for _, j := range []string{" ", "\t", "\x01", "\x7f", "\x80", "&#32;", "&#x9;", "&#10;", "\xc2\xa0", "&#0;"} {
+						for _, k := range []int{1, 7, 31, 32, 33, 100, 1000} {
+							emit(core.Case{In: strings.Repeat(j, k) + sc + "x", Kind: "url", A: int64(k)})
+						}
+					}
 				}
 			case "enc-data", "enc-java":
 				scheme := "data:"
